@@ -12,6 +12,12 @@
 //!           pm:<a|b>:<path>:<Method>:<args>                   call through the generated async / blocking proxy
 //!           pg:<a|b>:<path>:<Prop>      ps:<a|b>:<path>:<Prop>:<val>      property through the proxy (cache off)
 //!           sg:<a|b>:<path>:<Signal>:<args>                   server emits through the generated emitter, proxy stream receives
+//!           pn:<slot>:<a|b>:<c|n>:<path>                      create a PERSISTENT proxy in <slot>: c = the builder's default property
+//!                                                             caching, n = CacheProperties::No
+//!           qg:<slot>:<Prop>      qs:<slot>:<Prop>:<val>       property read / write through the proxy in <slot>
+//!   After every op the property caches of the persistent proxies are synchronised: the server emits a sentinel
+//!   PropertiesChanged {ZvSync: n} and the driver waits until each initialised cache shows it (the cache task consumes
+//!   signals in order), so what a later read sees does not depend on scheduling.
 //! Output: one observation per op joined by `;`:   <result>|<handler log joined by &>|<signals seen by the peer joined by &>
 //!   result of c:   N (no reply) | R<sig>=<values> | E<name>=<msg hex>         (several replies joined by &)
 //!   result of i:   I<canonical infoset by zbus_xml or BADXML>|<hex fragments of the org.zv.* interfaces, sorted, joined by .>|X<hex of the XML text>
@@ -281,6 +287,11 @@ async fn drain(client: &Connection, stream: &mut MessageStream, serial: Option<u
             }
             zbus::message::Type::Signal => {
                 let (sig, vals) = body_vals(&msg);
+                if let Some(Val::P(m)) = vals.get(1) {
+                    if m.contains_key("ZvSync") {
+                        continue; // the driver's own synchronisation sentinel
+                    }
+                }
                 obs.signals.push(format!(
                     "{}@{}/{}({}={})",
                     h.member().map(|m| m.to_string()).unwrap_or_default(),
@@ -458,6 +469,52 @@ fn parse_pop(kind: &str, w: &[&str]) -> Option<POp> {
     }
 }
 
+struct Slot {
+    name: String,
+    any: Box<dyn std::any::Any + Send + Sync>,
+    blocking: bool,
+    cached: bool,
+    path: String,
+    /// a read went through this proxy: its cache (if any) has been initialised
+    inited: bool,
+}
+
+/// Make every initialised property cache catch up with the signals sent so far.
+fn sync_slots(idx: usize, iface: &str, server: &Connection, slots: &[Slot], counter: &mut u32) -> bool {
+    let mut ok = true;
+    for s in slots.iter().filter(|s| s.cached && s.inited) {
+        *counter += 1;
+        let n = *counter;
+        let sent: zbus::Result<()> = block_on(async {
+            let em = zbus::object_server::SignalEmitter::new(server, s.path.clone())?;
+            let mut changed = std::collections::HashMap::new();
+            changed.insert("ZvSync", zvariant::Value::U32(n));
+            zbus::fdo::Properties::properties_changed(&em, iface.try_into()?, changed, std::borrow::Cow::Borrowed(&[])).await
+        });
+        if sent.is_err() {
+            ok = false;
+            continue;
+        }
+        let t0 = std::time::Instant::now();
+        loop {
+            let seen = if s.blocking {
+                gen_ifaces::slot_sync_blocking(idx, s.any.as_ref())
+            } else {
+                gen_ifaces::slot_sync_async(idx, s.any.as_ref())
+            };
+            if seen == Some(n) {
+                break;
+            }
+            if t0.elapsed() > Duration::from_secs(5) {
+                ok = false;
+                break;
+            }
+            std::thread::sleep(Duration::from_micros(200));
+        }
+    }
+    ok
+}
+
 fn run_case(line: &str) -> String {
     let words: Vec<&str> = line.split(' ').filter(|w| !w.is_empty()).collect();
     if words.len() < 3 || !["26", "27", "28", "33"].contains(&words[0]) {
@@ -533,6 +590,9 @@ fn run_case(line: &str) -> String {
     rt::take_log();
     let bclient = zbus::blocking::Connection::from(client.clone());
     let mut out = Vec::new();
+    let iface_name = format!("org.zv.{}", words[1].split('/').next().unwrap_or(""));
+    let mut slots: Vec<Slot> = Vec::new();
+    let mut sync_counter: u32 = 0;
     for w in &words[3..] {
         let f: Vec<&str> = w.split(':').collect();
         let r: Option<String> = match f[0] {
@@ -579,10 +639,74 @@ fn run_case(line: &str) -> String {
                 }
                 _ => None,
             },
+            "pn" if f.len() == 5 && !slots.iter().any(|s| s.name == f[1]) && (f[3] == "c" || f[3] == "n") => {
+                let cached = f[3] == "c";
+                let made = match f[2] {
+                    "a" => block_on(gen_ifaces::slot_new_async(idx, &client, f[4], cached)),
+                    "b" => {
+                        let (bc, p) = (bclient.clone(), f[4].to_string());
+                        let (tx, rx) = std::sync::mpsc::channel();
+                        std::thread::spawn(move || {
+                            let _ = tx.send(gen_ifaces::slot_new_blocking(idx, &bc, &p, cached));
+                        });
+                        rx.recv_timeout(Duration::from_secs(5)).unwrap_or(Some(Err("T".into())))
+                    }
+                    _ => None,
+                };
+                match made {
+                    Some(Ok(any)) => {
+                        slots.push(Slot { name: f[1].to_string(), any, blocking: f[2] == "b", cached, path: f[4].to_string(), inited: false });
+                        Some("O||".to_string())
+                    }
+                    Some(Err(e)) => Some(format!("{e}||")),
+                    None => None,
+                }
+            }
+            "qg" | "qs" if f.len() >= 3 => {
+                let op = match (f[0], f.len()) {
+                    ("qg", 3) => Some(POp::Get { name: f[2].to_string() }),
+                    ("qs", 4) => Val::parse(f[3]).map(|val| POp::Set { name: f[2].to_string(), val }),
+                    _ => None,
+                };
+                match (op, slots.iter().position(|s| s.name == f[1])) {
+                    (Some(op), Some(k)) => {
+                        let r = if slots[k].blocking {
+                            // the proxy stays in its slot: run the blocking call on a scoped helper thread with a watchdog
+                            let slot_any: &(dyn std::any::Any + Send + Sync) = slots[k].any.as_ref();
+                            std::thread::scope(|sc| {
+                                let (tx, rx) = std::sync::mpsc::channel();
+                                sc.spawn(move || {
+                                    let _ = tx.send(gen_ifaces::slot_op_blocking(idx, slot_any, &op));
+                                });
+                                rx.recv_timeout(Duration::from_secs(20)).unwrap_or(Some("T".into()))
+                            })
+                        } else {
+                            block_on(gen_ifaces::slot_op_async(idx, slots[k].any.as_ref(), &op))
+                        };
+                        if f[0] == "qg" {
+                            slots[k].inited = true;
+                        }
+                        match r {
+                            Some(r) => block_on(async {
+                                let mut obs = Obs { replies: vec![], signals: vec![] };
+                                drain(&client, &mut stream, None, &mut obs).await;
+                                Some(finish(r, obs))
+                            }),
+                            None => None,
+                        }
+                    }
+                    _ => None,
+                }
+            }
             _ => None,
         };
         match r {
-            Some(s) => out.push(s),
+            Some(mut s) => {
+                if !sync_slots(idx, &iface_name, &server, &slots, &mut sync_counter) {
+                    s.push_str("!SYNCFAIL");
+                }
+                out.push(s)
+            }
             None => return "BADCASE".into(),
         }
     }
